@@ -146,6 +146,7 @@ class VecInterp {
     long r = limit(i) - static_cast<long>(s[i].m.size());
     return r < 0 ? 0 : r;
   }
+  static int nv(int v) { return v > ET<E>::maxval ? v % (ET<E>::maxval + 1) : v; }
   static int mkval(int d) { return (d % 16 == 15) ? std::min<int>(200 + d, ET<E>::maxval) : d % 16; }
 
   // ---------------------------------------------------------------- windows
